@@ -499,3 +499,85 @@ Definition handed_ok (c : cfg) (pda : list hpost) (r : iter_rec) : Prop :=
   map erase (handed DCopyAll c pda r) = i_events r /\
   handed DCopyAll c pda r =
   (if succeeded (i_classes r) then posted_events c (i_height r) (pcontent c pda (i_height r)) else []).
+
+(* ==== the SIGNATURE PAYLOAD of headers: which bytes the proposer's signature is checked against ========
+   Above, a header blob is PHeader id: "proposer-signed, ValidateBasic = nil".  Here a SignedHeader blob is
+   described the way it was POSTED — who signed it and over WHICH PAYLOAD — and the node by the
+   SignaturePayloadProvider it is configured with (ManagerOptions.SignaturePayloadProvider, manager.go:267,409:
+   the chain's rule for what a header signature covers; the sequencer signs m.signaturePayloadProvider(&header),
+   manager.go:1015).  handlePotentialHeader decodes the blob (retriever.go:116-125), installs the node's
+   provider on the DECODED header (:128 header.SetCustomVerifier(m.signaturePayloadProvider)) and only then
+   runs ValidateBasic (:131; again in isUsingExpectedSingleSequencer :137, manager.go:595, on the same object);
+   SignedHeader.ValidateBasic (types/signed_header.go:125-148) verifies Signature over
+   sh.signatureProvider(&sh.Header), and over DefaultSignaturePayloadProvider(&sh.Header) when no provider is set.
+   A provider is opaque: a number names it, 0 = types.DefaultSignaturePayloadProvider; the signature scheme is
+   abstract: a signature verifies for exactly the payload it was made over. *)
+Definition scheme := N.
+Definition default_scheme : scheme := 0.
+
+(* a blob that unmarshals as pb.SignedHeader and passes Header.ValidateBasic, as posted *)
+Record hdpost := { hd_id : N;                        (* the harness's name of the header (its hash) *)
+                   hd_signer : bool;                 (* ProposerAddress = Signer.Address = genesis proposer = KeyAddress(Signer.PubKey)
+                                                        (signed_header.go:112-120, manager.go:595) *)
+                   hd_sigfor : option scheme }.      (* the provider over whose payload of THIS header Signature verifies
+                                                        under Signer.PubKey; None = over none *)
+
+(* Which provider ValidateBasic finds on the header object. *)
+Inductive verifier :=
+| VConfigured   (* the node's: set on the decoded header before validation — the code, retriever.go:128 *)
+| VFallback.    (* none (e.g. installed before a decode that overwrites the receiver): ValidateBasic falls back to
+                   the default provider, signed_header.go:130-131 — NOT the code; the variant the theorems rule out *)
+
+Definition payload_used (v : verifier) (conf : scheme) : scheme :=
+  match v with VConfigured => conf | VFallback => default_scheme end.
+
+(* signed_header.go:112-148 for a header of the genesis proposer's chain *)
+Definition hd_sig_valid (v : verifier) (conf : scheme) (hp : hdpost) : bool :=
+  hd_signer hp && match hd_sigfor hp with Some s => s =? payload_used v conf | None => false end.
+
+Definition junk_bad_header : N := 201.
+
+(* handlePotentialHeader retriever.go:112-146: a SignedHeader blob is a header for this node, or (ValidateBasic
+   failed: "not a header", then not signed data either; or unexpected sequencer: skipped) nothing *)
+Definition view_hd (v : verifier) (conf : scheme) (hp : hdpost) : post :=
+  if hd_sig_valid v conf hp then PHeader (hd_id hp) else PJunk junk_bad_header.
+
+(* the posts of a DA that several chains' nodes may read: header blobs as posted, everything else as above *)
+Inductive xpost :=
+| XHeader (hp : hdpost)
+| XPost (p : post).
+
+Definition view (v : verifier) (conf : scheme) (x : xpost) : post :=
+  match x with XHeader hp => view_hd v conf hp | XPost p => p end.
+
+Record xhpost := { xp_posts : list xpost; xp_outs : list outcome }.
+
+(* the DA as a node configured with provider [conf] sees it *)
+Definition pda_of (v : verifier) (conf : scheme) (xda : list xhpost) : list hpost :=
+  map (fun h => {| hp_posts := map (view v conf) (xp_posts h); hp_outs := xp_outs h |}) xda.
+
+(* ---- the specification side: in terms of what was POSTED and the chain's rule only -------------------- *)
+(* a genuine header of a chain whose signatures cover the payload of provider [conf]: signed by the proposer
+   over that payload *)
+Definition hd_genuineb (conf : scheme) (hp : hdpost) : bool :=
+  hd_signer hp && match hd_sigfor hp with Some s => s =? conf | None => false end.
+
+(* what sync must be handed from the posts found at DA height daH on a chain with provider [conf] *)
+Definition xposted_events (conf : scheme) (c : cfg) (daH : N) (xs : list xpost) : list pevent :=
+  flat_map (fun x => match x with
+                     | XHeader hp => if hd_genuineb conf hp && negb (mem (hd_id hp) (c_seen_h c))
+                                     then [PEHeader (hd_id hp) daH] else []
+                     | XPost p => posted_events c daH [p]
+                     end) xs.
+
+Definition xcontent (c : cfg) (xda : list xhpost) (n : N) : list xpost :=
+  if n <? boot c then [] else nth (N.to_nat (n - boot c)) (map xp_posts xda) [].
+
+(* One iteration of a node configured with [conf] hands over what was posted when what it hands over (with
+   payload) is, payload erased, exactly its events, and is — on a successful fetch — exactly the genuine unseen
+   headers OF THIS CHAIN (signed by the proposer over the chain's payload) and the genuine unseen data blobs of
+   that height in DA order; nothing otherwise. *)
+Definition xhanded_ok (v : verifier) (conf : scheme) (c : cfg) (xda : list xhpost) (r : iter_rec) : Prop :=
+  map erase (handed DCopyAll c (pda_of v conf xda) r) = i_events r /\
+  handed DCopyAll c (pda_of v conf xda) r =
+  (if succeeded (i_classes r) then xposted_events conf c (i_height r) (xcontent c xda (i_height r)) else []).
